@@ -3,6 +3,7 @@ package protocol
 import (
 	"encoding/hex"
 	"encoding/json"
+	"errors"
 	"math/big"
 
 	"github.com/google/uuid"
@@ -10,6 +11,9 @@ import (
 	"github.com/massnetorg/mass-core/poc/pocutil"
 	engine_v2 "massnet.org/mass/poc/engine.v2"
 )
+
+// errNilMsg is returned for a nested message that is absent or null in the JSON body.
+var errNilMsg = errors.New("nil message")
 
 // superior -> collector
 type RequestQualities struct {
@@ -233,6 +237,9 @@ func (q *Quality) SetMsg(msg *MsgQuality) error {
 }
 
 func NewQuality(msg *MsgQuality) (*Quality, error) {
+	if msg == nil {
+		return nil, errNilMsg
+	}
 	q := new(Quality)
 	if err := q.SetMsg(msg); err != nil {
 		return nil, err
@@ -440,6 +447,9 @@ func (p *Proof) SetMsg(msg *MsgProof) error {
 }
 
 func NewProof(msg *MsgProof) (*Proof, error) {
+	if msg == nil {
+		return nil, errNilMsg
+	}
 	p := new(Proof)
 	if err := p.SetMsg(msg); err != nil {
 		return nil, err
